@@ -148,12 +148,16 @@ def _fm_unsat(cons, limit=FM_LIMIT):
         # variable occurrence
         pos = {}
         neg = {}
+        mx = {}
         for k in cur:
             for s, v in k:
                 if v > 0:
                     pos[s] = pos.get(s, 0) + 1
                 else:
                     neg[s] = neg.get(s, 0) + 1
+                av = v if v > 0 else -v
+                if mx.get(s, 0) < av:
+                    mx[s] = av
         allv = set(pos) | set(neg)
         # drop constraints with pure variables
         pure = [s for s in allv if s not in pos or s not in neg]
@@ -162,7 +166,10 @@ def _fm_unsat(cons, limit=FM_LIMIT):
             cur = {k: c for k, c in cur.items() if not any(s in ps for s, _ in k)}
             continue
         # choose var minimizing product
-        best = min(allv, key=lambda s: pos[s] * neg[s] - pos[s] - neg[s])
+        # variables with large coefficients (carry symbols of modular
+        # arithmetic) are eliminated last so that the single-variable
+        # constraints left on them get integer-tightened
+        best = min(allv, key=lambda s: (mx[s] > 1024, pos[s] * neg[s] - pos[s] - neg[s]))
         P = []
         N = []
         rest = {}
@@ -271,12 +278,38 @@ class Cons:
         l = normalize(l)
         if not l.t:
             return l.c <= 0 or self.unsat()
+        if l.key() in self.keys:
+            return True
         neg = (-l) + 1      # l >= 1
-        c = cone(self.items, l.t.keys())
-        try:
-            return _fm_unsat(c + [neg])
-        except TooHard:
-            return False
+        # iterative deepening over the constraint neighbourhood of the query:
+        # any subset of the constraints that refutes the negation is a proof
+        syms = set(l.t.keys())
+        used = []
+        rest = self.items
+        last = -1
+        for depth in range(6):
+            nxt = []
+            add = []
+            for c in rest:
+                if any(s in syms for s in c.t):
+                    add.append(c)
+                else:
+                    nxt.append(c)
+            if not add and depth > 0:
+                break
+            used.extend(add)
+            rest = nxt
+            for c in add:
+                syms.update(c.t.keys())
+            if len(used) == last:
+                break
+            last = len(used)
+            try:
+                if _fm_unsat(used + [neg], 3000):
+                    return True
+            except TooHard:
+                return False
+        return False
 
     def entails_le(self, a, b):
         return self.entails(_L(a) - _L(b))
